@@ -337,6 +337,17 @@ func (u *Units) analyse(fn *ssa.Function, check bool) {
 	if isBufferPut(name) && 1+nrecv < len(fn.Params) {
 		u.accSet(fn.Params[1+nrecv], uAbs)
 	}
+	// parameters that are whole-collection bitmaps by contract
+	switch name {
+	case "(commit.Chunk).OfBitmap", "(commit.Chunk).Range":
+		if len(fn.Params) > 1 {
+			u.accSet(fn.Params[1], uBmWhole)
+		}
+	case "(*commit.Buffer).PutBitmap":
+		if len(fn.Params) > 3 {
+			u.accSet(fn.Params[3], uBmWhole)
+		}
+	}
 	if blockBitmapParam(fn) {
 		for _, par := range fn.Params[nrecv:] {
 			if isBitmap(par.Type()) {
@@ -729,6 +740,14 @@ func (u *Units) call(fn *ssa.Function, ins ssa.Instruction, cc *ssa.CallCommon, 
 		name == "bitmap.Sum" || name == "bitmap.Min" || name == "bitmap.Max":
 		u.sink(fn, ins, "values folded by "+name, uData, u.val(cc.Args[0]))
 		u.sink(fn, ins, "selection folded by "+name, uBmBlock, u.val(cc.Args[1]))
+	case name == "(commit.Chunk).OfBitmap" || name == "(commit.Chunk).Range":
+		if k := u.val(cc.Args[1]); k != uBot {
+			u.sink(fn, ins, "bitmap sliced per block by "+strings.TrimPrefix(name, "(commit.Chunk)."), uBmWhole, k)
+		}
+	case name == "(*commit.Buffer).PutBitmap":
+		if k := u.val(cc.Args[3]); k != uBot {
+			u.sink(fn, ins, "bitmap handed to PutBitmap (sliced per block inside)", uBmWhole, k)
+		}
 	case isBufferPut(name):
 		u.sink(fn, ins, "offset written to the buffer ("+strings.TrimPrefix(name, "(*commit.Buffer).")+")", uAbs, u.val(arg(1)))
 	case name == "(*commit.Buffer).PutBool":
